@@ -62,6 +62,9 @@ def explore(ctx, extended=False, focus=None):
                         sig["detail"] = "zero-divisor" if int(d.split(":")[1]) == 0 else "nonzero-divisor"
                     except Exception:
                         pass
+                if r.errcls == "ZeroDivisionError":
+                    # backend.fieldinverse(0): some operand (difference) is a non-zero multiple of the field prime
+                    sig["detail"] = "multiple-of-modulus"
                 ex.violations.append(Violation(sig, f"{r.case.instrs[r.errpos]} raises {r.errcls} although an enclosing guard is false "
                                                     f"(guard values {vals})", {"case": r.case.line()}))
         # (2) satisfied
